@@ -30,14 +30,15 @@ import (
 )
 
 type frameAnalysis struct {
-	P          *Program
-	fns        []*ssa.Function
-	retShare   map[*ssa.Function]bool         // returns a shared value
-	writesP    map[*ssa.Function]map[int]bool // writes through parameter i (incl. receiver = 0)
-	shared     map[*ssa.Function]map[ssa.Value]bool
-	viol       []string
-	undec      []string
-	unknownExt map[string]bool
+	P           *Program
+	fns         []*ssa.Function
+	retShare    map[*ssa.Function]bool         // returns a shared value
+	sharedField map[string]bool                // struct fields into which a shared reference is stored somewhere
+	writesP     map[*ssa.Function]map[int]bool // writes through parameter i (incl. receiver = 0)
+	shared      map[*ssa.Function]map[ssa.Value]bool
+	viol        []string
+	undec       []string
+	unknownExt  map[string]bool
 }
 
 func (P *Program) repoFunctions() []*ssa.Function {
@@ -108,6 +109,19 @@ func pointerLike(t types.Type) bool {
 	return false
 }
 
+// fieldKey names a struct field independently of the object: shared values are tracked
+// through the heap field-based (object-insensitive): once a shared reference is stored
+// into field F of any object, every load of F is shared.  (The SA objects hold pointers
+// to the registries' singleton descriptors: a method that wrote through such a
+// descriptor would interfere across SAs although it never names a global.)
+func fieldKey(x *ssa.FieldAddr) string {
+	pt, ok := x.X.Type().Underlying().(*types.Pointer)
+	if !ok {
+		return ""
+	}
+	return fmt.Sprintf("%s#%d", pt.Elem().String(), x.Field)
+}
+
 // computeShared: fixpoint of the "shared" relation inside fn given the current summaries.
 func (fa *frameAnalysis) computeShared(fn *ssa.Function) map[ssa.Value]bool {
 	sh := map[ssa.Value]bool{}
@@ -137,6 +151,9 @@ func (fa *frameAnalysis) computeShared(fn *ssa.Function) map[ssa.Value]bool {
 					if x.Op.String() == "*" && is(x.X) && pointerLike(x.Type()) {
 						mark(v) // a reference loaded out of shared memory
 					}
+					if fad, ok := x.X.(*ssa.FieldAddr); ok && x.Op.String() == "*" && pointerLike(x.Type()) && fa.sharedField[fieldKey(fad)] {
+						mark(v) // a reference loaded from a field that is known to hold shared references
+					}
 				case *ssa.FieldAddr:
 					if is(x.X) {
 						mark(v)
@@ -147,6 +164,9 @@ func (fa *frameAnalysis) computeShared(fn *ssa.Function) map[ssa.Value]bool {
 					}
 				case *ssa.Field:
 					if is(x.X) && pointerLike(x.Type()) {
+						mark(v)
+					}
+					if pointerLike(x.Type()) && fa.sharedField[fmt.Sprintf("%s#%d", x.X.Type().String(), x.Field)] {
 						mark(v)
 					}
 				case *ssa.Index:
@@ -242,6 +262,7 @@ func (fa *frameAnalysis) where(fn *ssa.Function, ins ssa.Instruction) string {
 func (fa *frameAnalysis) run() {
 	fa.fns = fa.P.repoFunctions()
 	fa.retShare = map[*ssa.Function]bool{}
+	fa.sharedField = map[string]bool{}
 	fa.writesP = map[*ssa.Function]map[int]bool{}
 	inRepo := map[*ssa.Function]bool{}
 	for _, fn := range fa.fns {
@@ -366,6 +387,28 @@ func (fa *frameAnalysis) run() {
 				if w {
 					fa.writesP[fn][pi] = true
 					changed = true
+				}
+			}
+			// (c) stores a shared reference into a field of some object
+			if !isInitFn(fn) {
+				sh := fa.computeShared(fn)
+				for _, b := range fn.Blocks {
+					for _, ins := range b.Instrs {
+						st, ok := ins.(*ssa.Store)
+						if !ok || !pointerLike(st.Val.Type()) {
+							continue
+						}
+						_, g := st.Val.(*ssa.Global)
+						if !g && !sh[st.Val] {
+							continue
+						}
+						if fad, ok := st.Addr.(*ssa.FieldAddr); ok {
+							if k := fieldKey(fad); k != "" && !fa.sharedField[k] {
+								fa.sharedField[k] = true
+								changed = true
+							}
+						}
+					}
 				}
 			}
 			// (b) returns a shared value
@@ -513,6 +556,7 @@ var frameExternalWrites = map[string][]int{
 	"io.Reader.Read":      {1},
 	"(*math/big.Int).Exp": {0}, "(*math/big.Int).Cmp": {}, "(*math/big.Int).Bytes": {}, "(*math/big.Int).String": {}, "(*math/big.Int).Sign": {}, "(*math/big.Int).BitLen": {},
 	"(*math/big.Int).SetBytes": {0}, "(*math/big.Int).SetString": {0}, "(*math/big.Int).SetUint64": {0}, "math/big.NewInt": {},
+	"(*math/big.Int).Add": {0}, "(*math/big.Int).Sub": {0}, "(*math/big.Int).Mul": {0}, "(*math/big.Int).Mod": {0}, "(*math/big.Int).Lsh": {0}, "(*math/big.Int).Rsh": {0}, "(*math/big.Int).Set": {0}, "(*math/big.Int).SetInt64": {0},
 	"fmt.Sprintf": {}, "fmt.Errorf": {}, "fmt.Sprint": {}, "fmt.Println": {}, "fmt.Printf": {},
 	"github.com/pkg/errors.Errorf": {}, "github.com/pkg/errors.Wrapf": {}, "github.com/pkg/errors.New": {}, "github.com/pkg/errors.Wrap": {}, "errors.New": {},
 	"strconv.Itoa": {}, "strconv.FormatUint": {}, "strconv.FormatInt": {}, "encoding/hex.EncodeToString": {}, "encoding/hex.Dump": {},
